@@ -519,6 +519,7 @@ func checkC16(w *World, r *Report) {
 		codec[f] = true
 	}
 	checkGlobalMemos(w, r, "R16.6", func(f *ssa.Function) bool { return codec[f] })
+	checkSaveWrites(w, r)
 }
 
 func (w *World) compareWire(r *Report, wfd, rfd *ast.FuncDecl, wo, ro []wireOp, helper bool, helperPairOK bool) bool {
@@ -1015,4 +1016,62 @@ func checkFieldCorrespondence(w *World, r *Report) {
 		})
 	}
 	r.floor("compile/load field copies", n, 4)
+}
+
+// checkSaveWrites — R16.7: saving means writing.  A function of the package that writes a
+// compiled template to a file (it contains an os.WriteFile / file Write call) reports success
+// only after it wrote: every return with a nil error lies behind the write on every path.  A
+// "nothing to do, the file looks up to date" early return leaves the previous template's bytes
+// under the name, and what is read back is no longer what was compiled.
+func checkSaveWrites(w *World, r *Report) {
+	isWrite := func(in ssa.Instruction) bool {
+		c, ok := in.(ssa.CallInstruction)
+		if !ok {
+			return false
+		}
+		f := calleeFunc(c)
+		if f == nil || f.Pkg() == nil {
+			return false
+		}
+		switch f.FullName() {
+		case "os.WriteFile", "io/ioutil.WriteFile", "(*os.File).Write", "(*os.File).WriteString", "(*os.File).WriteAt", "(*bufio.Writer).Flush":
+			return true
+		}
+		return false
+	}
+	n := 0
+	for _, fn := range w.pkgFuncs() {
+		has := false
+		instrsOf(fn, func(in ssa.Instruction) {
+			if isWrite(in) {
+				has = true
+			}
+		})
+		ei := errResultIndex(fn.Signature)
+		if !has || ei < 0 {
+			continue
+		}
+		n++
+		construct := "success is reported only after the file was written"
+		bad := ""
+		instrsOf(fn, func(in ssa.Instruction) {
+			ret, ok := in.(*ssa.Return)
+			if !ok || bad != "" {
+				return
+			}
+			res := retResults(ret)
+			if ei >= len(res) || !isNilConst(res[ei]) {
+				return
+			}
+			if found, path := existsPathAvoiding(fn, in, isWrite, nil); found {
+				bad = w.posOf(ret.Pos()) + " (path " + strings.Join(path, " → ") + ")"
+			}
+		})
+		if bad == "" {
+			r.ok("R16.7", ssaName(fn), construct, w.posOf(fn.Pos()), "every nil-error return is preceded by the write on every path", true)
+		} else {
+			r.bad("R16.7", ssaName(fn), construct, bad, "the function can return nil without having written the file: the caller believes the compiled template was saved, but the file keeps what an earlier save (of another source) put there, so the compiled form read back no longer renders like the source")
+		}
+	}
+	r.floor("functions writing compiled files", n, 1)
 }
